@@ -210,9 +210,15 @@ func checkMutant(A, B *space, m Mut, mt mutant) error {
 					classes = append(classes, "forgery-control-accepted")
 				}
 			case unwrapIs(merr, errUnparsed):
-				// the harness parser is stricter than protobuf (no groups): fall back to the
-				// generated decoder for the one question "same signed content and signature?"
-				for q := 0; q < 3; q++ {
+				// Something in the payload is unreadable for the harness parser although the
+				// generated decoders took it. For mutants that were NOT re-signed (wrapper
+				// re-encoded under a recomputed id) the one remaining question is "same signed
+				// content and signature as the original?" - ask the generated decoder. Mutants
+				// re-signed by the owner (inner-op resign, semantic, forgery controls)
+				// legitimately carry new content and signatures in every touched part: for those
+				// there is no verdict, the case is only counted.
+				resigned := m.Resign || m.Kind == "semantic" || m.Kind == "forgery"
+				for q := 0; q < 3 && !resigned; q++ {
 					if mt.touched&(1<<q) == 0 {
 						continue
 					}
